@@ -1,6 +1,8 @@
 """C19 — block truncation removes only contributions below the tolerance (DESIGN.md §3 C19).
 Decides the structural clauses: a part is skipped only if ALL blocks of its stripe are discarded, and a block is
 discarded only if none of its weights exceeds the tolerance.  The eps-proportional error bound is numeric: not decided."""
+import sympy as sp
+
 from pv.check import run_check
 from pv.entail import canon, entails
 from pv.expr import Ctx, guard_facts, key_contains
@@ -28,6 +30,81 @@ def subkeys(k):
         for x in k:
             if isinstance(x, tuple):
                 yield from subkeys(x)
+
+
+def _stripe_guard_by_interpretation(db, f, ctx, N, arr, idxs):
+    """Interpret the body of the innermost loop around the creation of a TwoParticleGFPart for a stripe of blocks 0-1-2-3
+    that satisfies the selection, under each of the 16 patterns of DM.isRetained, and record whether the `new` is reached.
+    Returns [(pattern, created)].  Anything outside the interpreter's subset raises AnalysisBroken."""
+    from pv.summ import Interp, Obj, Stop, Thrown, MapIter, _Continue, _Break, Frame
+    Ls = enclosing_loops(f, N)
+    if not Ls:
+        raise AnalysisBroken("creation outside any loop")
+    L = f.nodes[Ls[0]]
+    G2 = "Pomerol::TwoParticleGF"
+    out = []
+    for bits in range(16):
+        r = tuple(bool(bits >> i & 1) for i in range(4))
+        prims = {
+            DM + "::isRetained": lambda fr, i, obj, a, r=r: r[a[0]] if isinstance(a[0], int) and 0 <= a[0] < 4 else fr.bad(i, "isRetained of a block outside the stripe"),
+            G2 + "::getRightIndex": lambda fr, i, obj, a: a[2] + 1 if isinstance(a[2], int) and a[2] < 3 else -1,
+            G2 + "::getLeftIndex": lambda fr, i, obj, a: a[2] - 1 if isinstance(a[2], int) and a[2] > 0 else -1,
+            "Pomerol::BlockNumber::isCorrect": lambda fr, i, obj, a: isinstance(obj, int) and obj >= 0,
+            "Pomerol::BlockNumber::operator unsigned long": lambda fr, i, obj, a: obj,
+            "construct Pomerol::BlockNumber": lambda fr, i, a: a[0] if a else -1,
+        }
+        ip = Interp(db, prims)
+        this = Obj("TwoParticleGF", **{G2 + "::DM": Obj("DensityMatrix"), G2 + "::parts": []})
+        env = {}
+        # variables of the enclosing loops: permutation counter 0, the outer iterator at the pair (block 0, block 3)
+        for j, n in f.walk(f.body):
+            if n["k"] == "decl":
+                for v in n["vars"]:
+                    if any(jj == N for jj, _ in f.walk(L["body"])) and any(jj == j for jj, _ in f.walk(L["body"])):
+                        continue        # declared inside the interpreted body
+                    t = v.get("t") or ""
+                    if "iterator" in t:
+                        env[v["d"]] = MapIter({0: 3}, 0)
+                    elif t.replace("const ", "").strip() in ("size_t", "std::size_t", "unsigned long", "int", "unsigned int", "long"):
+                        env[v["d"]] = 0
+        ip.stop_at = (f, N)
+        fr = Frame(ip, f, env, this)
+        try:
+            fr.exec(L["body"])
+            created = False
+        except Stop:
+            created = True
+        except (_Continue, _Break):
+            created = False
+        except Thrown as t:
+            raise AnalysisBroken("interpreted stripe loop throws %s" % t.tt)
+        except (KeyError, TypeError, IndexError) as e:
+            raise AnalysisBroken("interpreted stripe loop: %r" % (e,))
+        out.append((r, created))
+    return out
+
+
+
+def _truncate_by_interpretation(db, f):
+    """DensityMatrixPart::truncate(eps) interpreted on every weight vector of 0..3 states whose weights are below / equal to /
+    above eps, for both values the flag may have had before.  Returns [(weights, prior, after, wrong)] where wrong means: some
+    weight is above eps and the block is not retained afterwards."""
+    from pv.summ import Interp, Obj, Thrown
+    import itertools
+    out = []
+    for n in range(4):
+        for w in itertools.product((0, 1, 2), repeat=n):
+            for prior in (True, False):
+                this = Obj("DensityMatrixPart", **{DMP + "::weights": [sp.Rational(x, 2) for x in w], DMP + "::retained": prior})
+                ip = Interp(db, {})
+                try:
+                    ip.call_fn(f, [sp.Rational(1, 2)], this=this)
+                except Thrown as t:
+                    raise AnalysisBroken("truncate throws %s" % t.tt)
+                after = bool(this.f[DMP + "::retained"])
+                out.append((w, prior, after, any(x == 2 for x in w) and not after))
+    return out
+
 
 
 def body(chk, db, cfgname):
@@ -170,7 +247,24 @@ def body(chk, db, cfgname):
         else:
             why = "the 'retained' flag is not (false initially, set true only under DM.isRetained(LeftIndices[k]) in a full loop over the stripe)"
     has_ret = any(n_["k"] == "call" and strip_targs(n_.get("cname") or "") == DM + "::isRetained" for _, n_ in f.walk(f.body))
-    if good:
+    interp = None
+    if has_ret and arr is not None and len(idxs) == len(used):
+        try:
+            interp = _stripe_guard_by_interpretation(db, f, ctx, N, arr, idxs)
+        except AnalysisBroken as e:
+            interp = None
+            interp_why = str(e)
+    if interp is not None:
+        wrong = [(r, c) for r, c in interp if c != any(r[i] for i in idxs)]
+        if not wrong:
+            r1.ok(site, f.loc(N), "created iff DM.isRetained(LeftIndices[k]) for some k in %s, the blocks whose data the part uses (body of the stripe loop interpreted for all 16 retention patterns)" % sorted(idxs), cfgname)
+        else:
+            r, c = wrong[0]
+            pat = ", ".join("block %d %s" % (i, "retained" if r[i] else "discarded") for i in range(4))
+            r1.bad(site, f.loc(N), "for a matching stripe with %s the part is %s (%d of 16 retention patterns decided wrongly; interpreted body of the stripe loop): %s" % (
+                pat, "created although every block it uses is discarded" if c else "not created", len(wrong),
+                "a contribution above the tolerance is dropped" if not c else "the truncation has no effect"), cfgname)
+    elif good:
         r1.ok(site, f.loc(N), "created iff DM.isRetained(LeftIndices[k]) for some k in 0..3, the four blocks whose data the part uses", cfgname)
     elif not has_ret:
         r1.ok(site, f.loc(N), "no truncation guard: every stripe is kept (eps = 0 behaviour)", cfgname)
@@ -236,7 +330,21 @@ def body(chk, db, cfgname):
         else:
             why = "the weights are not scanned over [0, size)"
     verdict = "ok" if good else "bad"
-    if not good and not (len(falses) == 1 and len(trues) == 1):
+    interp = None
+    try:
+        interp = _truncate_by_interpretation(db, f)
+    except AnalysisBroken:
+        interp = None
+    if interp is not None:
+        wrong = [x for x in interp if x[3]]
+        if not wrong:
+            r2.ok(site, f.loc(), "after truncate(eps) the block is retained whenever some weight exceeds eps, whatever the flag was before (body interpreted on %d weight vectors of up to 3 states below / at / above eps, both prior flag values)" % len(interp), cfgname)
+        else:
+            w, prior, after, _ = wrong[0]
+            r2.bad(site, f.loc(), "with weights %s relative to the tolerance and the flag previously %s, the block is discarded although a state has weight above the tolerance (%d of %d interpreted cases)" % (
+                [{0: "below", 1: "equal", 2: "above"}[x] for x in w], "true" if prior else "false", len(wrong), len(interp)), cfgname)
+        verdict = None
+    elif not good and not (len(falses) == 1 and len(trues) == 1):
         # other ways of writing the same decision
         verdict = "unknown"
         why = "the retention flag is computed in a form that is not analysed"
@@ -256,14 +364,16 @@ def body(chk, db, cfgname):
                     any(y[0] == "op" and y[1] in ("()", "[]") and y[2] == W for y in (x[2], x[3]) if isinstance(y, tuple)) for x in subkeys(v)):
                 verdict, why = "bad", "only one weight is compared with the tolerance (%s): a block whose other states carry weight above it is discarded" % f.s(f.nodes[asg[0][0]]["r"])[:70]
             elif v == ("lit", 1):
-                verdict, why = "bad", "retained is only ever set to true: truncation never discards a block"
+                verdict = "ok"       # nothing is ever discarded: the property holds trivially
             elif v == ("lit", 0):
                 verdict, why = "bad", "retained is only ever set to false: a block once discarded stays discarded for any later, smaller tolerance (eps = 0 does not restore the untruncated result)"
         elif asg and all(v == ("lit", 1) for _, v in asg):
-            verdict, why = "bad", "retained is never reset to false: a block that was retained once is never discarded by a later truncation with a larger tolerance (and blocks start retained, so truncation has no effect)"
+            verdict = "ok"           # blocks start retained and are never discarded: the property holds trivially
         elif asg and all(v == ("lit", 0) for _, v in asg):
             verdict, why = "bad", "retained is only ever set to false: a block once discarded stays discarded for any later, smaller tolerance (eps = 0 does not restore the untruncated result)"
-    if verdict == "ok":
+    if verdict is None:
+        pass
+    elif verdict == "ok":
         r2.ok(site, f.loc(), "retained = false; true iff exists s with weights(s) > (or >=) Tolerance", cfgname)
     elif verdict == "unknown":
         r2.unknown(site, f.loc(), why, cfgname)
